@@ -659,7 +659,7 @@ fn main() {
     run_history(&mut out, &rt, &mut rng, w);
     let (n_hist, max_len, perm_universes) = match args.tier {
         Tier::Quick => (250usize, 14usize, 3usize),
-        Tier::Thorough => (4_000, 22, 12),
+        Tier::Thorough => (2_500, 22, 10),
         Tier::Search => (1500, 20, 10),
     };
     for k in 0..n_hist {
